@@ -68,6 +68,31 @@ def gen_rigid_body(rng, stream):
     return sh
 
 
+HISTORY_SHARE = dict(mesh=0.7, box=0.6)      # share of the cases with a pose history, default 0.4
+
+
+def add_histories(rng, cases):
+    """for a share of the cases (kinds with update_pose) the collider is constructed at another pose and brought to
+    the pose of the case by update_pose calls on ONE pose array that is overwritten in place between the calls
+    (the constructor's own array, or the array of the first update_pose; possibly a matrix of a pose stack);
+    aabb() is asked at every stage"""
+    for c in cases:
+        sh = c["shape"]
+        k = sh["kind"]
+        if k not in sc.POSE_KINDS or rng.random() >= HISTORY_SHARE.get(k, 0.4):
+            continue
+        stream = sh.get("stream", "random")
+        c["history"] = sc.gen_pose_history(rng, sh, stream)
+        if k in ("sphere", "disk", "ellipse"):
+            if k == "ellipse":
+                Rf = [[sh["a0"][i], sh["a1"][i], sc.cross3(sh["a0"], sh["a1"])[i]] for i in range(3)]
+            else:
+                Rf = sc.gen_rotation(rng, stream if stream in ("lattice", "exact", "near", "composed") else "random")
+                if k == "disk":
+                    Rf = sc.frame_with_third_column(Rf, sh["n"])
+            c["shape"] = sc.with_pose(sh, Rf, sh["c"])
+
+
 def gen_cases(rng, tier):
     per = 8 if tier == "quick" else 90
     cases = []
@@ -79,6 +104,7 @@ def gen_cases(rng, tier):
                 if rng.random() < 0.25:
                     margin = rng.choice(sc.LATTICE) if stream in ("lattice", "exact") else 10 ** rng.uniform(-2, 1)
                 cases.append(dict(shape=sh, margin=margin))
+    add_histories(rng, cases)
     for c in cases:
         k = c["shape"]["kind"]
         if k not in ("mesh",) and rng.random() < 0.5:
@@ -98,6 +124,7 @@ def gen_cases(rng, tier):
     for kind in ("cylinder", "cone", "disk", "capsule", "ellipsoid", "box", "ellipse"):
         for _ in range(max(2, per // 4)):
             cases.append(dict(shape=sc.gen_shape(rng, kind, "composed"), margin=None))
+    add_histories(rng, [c for c in cases if c["shape"].get("stream") in ("near", "degen", "composed")])
     for _ in range(12 if tier == "quick" else 60):
         cases.append(dict(shape=gen_rigid_body(rng, rng.choice(["random", "lattice"])), margin=None))
     # the two documented witnesses, always present
@@ -177,6 +204,18 @@ def judge_case(case, r):
         out.append((site + ".state", f"containment.{site}: after overwriting the argument arrays IN PLACE with another {sh['kind']} (shape2 of the "
                                      f"replay) the same array objects give {ip['got']}, fresh arrays with the same values give {ip['want']}"))
     name = f"{sh['kind'].capitalize()}.aabb()" if case["margin"] is None else f"Margin({sh['kind'].capitalize()}).aabb()"
+    hist = case.get("history")
+    if hist is not None:
+        how = ("the pose array handed to the constructor" if hist["ctor_array"] else "the array of the first update_pose") + \
+              (" (matrix 1 of a (3,4,4) stack)" if hist.get("stack") else "")
+        name = (f"[history: constructed at another pose, aabb(), then {len(hist['mids']) + 1} update_pose call(s) each followed by aabb(); "
+                f"{how} is overwritten in place and passed to update_pose again] " + name)
+        for si, (shs, ob) in enumerate(zip(sc.history_stage_shapes(sh, hist), r.get("stages") or [])):
+            where = "after construction" if si == 0 else f"after update_pose #{si} of the history"
+            out += [(f"{site}@stage{si}", f) for f in judge_box(shs, case["margin"], ob["aabb"], r, sc.shape_L(shs, case["margin"] or 0.0),
+                                                                f"{name} {where}")]
+            if not ob.get("again_same", True):
+                out.append((site + ".state", f"{name} {where}: a second aabb() call returns another box"))
     out += [(site, f) for f in judge_box(sh, case["margin"], r["aabb"], r, L, name)]
     if "free" in r:
         out += [(site, f) for f in judge_box(sh, None, r["free"], r, sc.shape_L(sh), f"containment.{site if sh['kind'] != 'hull' else 'axis_aligned_bounding_box'}")]
@@ -186,6 +225,9 @@ def judge_case(case, r):
 def known_id(case, site):
     """the input-class predicate of the two known findings"""
     sh = case["shape"]
+    site, _, stage = site.partition("@stage")
+    if stage != "":                  # an observation at an intermediate pose of a history: the class is that of THAT pose
+        sh = sc.history_stage_shapes(sh, case["history"])[int(stage)]
     if site == "ellipsoid_aabb" and sh["kind"] == "ellipsoid" and not sc.is_signed_permutation(sh["R"]):
         return "F9"
     if site == "RigidBody.aabb" and sh["kind"] == "rigid_body" and not sc.is_identity_pose(sh["R"], sh["t"]):
